@@ -361,6 +361,8 @@ def run(ctx):
     XJOBS = [(u, f) for u in XUSES for f in XFORMS]
     for i in range(len(XJOBS)):
         jobs.append(("xcycle", i))
+    for i in range(42):
+        jobs.append(("anchors", i))
     n_expr = len(fuzzgen.EXPRS) + (60 if quick else 2000)
     for i in range(n_expr):
         jobs.append(("expr", i))
@@ -497,6 +499,23 @@ def run(ctx):
                                                "TE: !record\n  fields:\n    a: 'int[x, y]'\n    b: 'int[,]'\n    v: int*\n    m: string->int\n    u: [int, string]\n    o: int?\n    r: Inner\n    f: 'float[2, 3]'\n    zz: double\n    fv: int*3\n"
                                                "  computedFields:\n    k0: 1\n    k1: k0 + 1\n    k2: %s\n" % exq)}
             desc += " computed field `%s`" % ex[:80]
+        elif kind == "anchors":
+            # YAML anchors nested with fan-out: anchor k holds two or three aliases of anchor k-1 (as a sequence, a mapping, record fields) - a document of a
+            # few hundred bytes that denotes a tree of 2^k nodes; whatever walks it node by node without remembering where it has been does not come back
+            levels = [8, 16, 24, 32, 48, 64, 128][i % 7]
+            fan = 2 + (i // 7) % 2
+            shape = (i // 14) % 3
+            lines = ["f0: &a0 [int, float]" if shape != 2 else "F0: &a0 !record\n  fields:\n    x: int"]
+            for k in range(1, levels):
+                if shape == 0:
+                    lines.append("f%d: &a%d [%s]" % (k, k, ", ".join(["*a%d" % (k - 1)] * fan)))
+                elif shape == 1:
+                    lines.append("f%d: &a%d {%s}" % (k, k, ", ".join("k%d: *a%d" % (j, k - 1) for j in range(fan))))
+                else:
+                    lines.append("F%d: &a%d !record\n  fields:\n%s" % (k, k, "".join("    g%d: *a%d\n" % (j, k - 1) for j in range(fan)).rstrip("\n")))
+            files = {k: v for k, v in files.items() if not k.startswith(root_rel + "/") or k.endswith("_package.yml")}
+            files[root_rel + "/model.yml"] = "\n".join(lines) + "\n"
+            desc += " %d levels of anchors with fan-out %d (shape %d, %d bytes)" % (levels, fan, shape, len(files[root_rel + "/model.yml"]))
         elif kind == "nest":
             depth = [2, 3, 4, 5, 6, 7, 8, 9, 10, 11, 10, 11][i % 12] if i % 2 == 0 else [2, 4, 6, 8, 10, 12, 14, 16, 18, 20, 22, 24][i % 12]
             t = "int"
@@ -512,7 +531,7 @@ def run(ctx):
         ctx.case(key)
         ctx.count("kind." + kind)
         procs = {"validate": cli.run_cli("validate", pkgdir, home)}
-        if i % 2 == 0 or kind in ("nest", "manifest", "tagkind", "mtagkind", "rules", "nearpair", "evoshape"):
+        if i % 2 == 0 or kind in ("nest", "anchors", "manifest", "tagkind", "mtagkind", "rules", "nearpair", "evoshape"):
             procs["generate"] = cli.run_cli("generate", pkgdir, home)
         nviol = len(ctx.violations) + sum(v["n"] for v in ctx.known_hits.values())
         judge(ctx, case_dir, pkgdir, kind, desc, procs)
